@@ -136,6 +136,14 @@ def hyp_search(acc: Acc, prop: str, name: str, shard: int, n_examples: int, body
         remaining = max(0, (remaining - state["n"]) // 2)
 
 
+def hyp_each(acc, prop, name, shard, items, k, make_body, tier, key=str):
+    """Every item gets its own small Hypothesis search of k cases (corpus files x drawn variants)."""
+    for item in items:
+        if acc.over_budget():
+            break
+        hyp_search(acc, prop, f"{name}/{key(item)}", shard, k, make_body(item), tier, max_rounds=2)
+
+
 # ----------------------------------------------------------------------------- pool
 
 def _worker(args):
